@@ -197,15 +197,22 @@ def regime_records(ctx, rng, nid):
                 recs.append({'id': 'regime-%d' % next(nid), 'op': 'phi_regime', 'site': 'PhiManip.phi_1D',
                              'in': {'switch': 'size far from 1', 'points': [[rat(gam), rat(h), rat(nu)]]}, 'out': {'phis': [phi]}})
     # extremes of the stated domain: finite and non-negative (no continuity claim between unrelated points)
-    for r in range(6 if ctx.quick else 40):
+    for r in range(8 if ctx.quick else 40):
         gam = rng.choice([-1e6, -1e5, -1e4, -3e3, -1e3, 1e3, 999.0, 500.0, rng.uniform(-1e6, 1e3)])
         h = rng.choice([0.0, 1.0, 0.5, rng.random()])
         nu = rng.choice([0.1, 1.0, 10.0])
+        if r == 0:
+            gam, h, nu = -1e6, 0.25, 10.0
+        elif r == 1:
+            gam, h, nu = -1e6, 0.75, 10.0
         try:
             phi = rats(PhiManip.phi_1D(xx, nu=nu, gamma=gam, h=h, theta0=rng.uniform(0.1, 3), beta=rng.choice([1.0, 0.3, 2.5])))
         except Exception as ex:
             phi = ['nan']
-        recs.append({'id': 'regime-%d' % next(nid), 'op': 'phi_regime', 'site': 'PhiManip.phi_1D',
+        # the general-h quadrature loses the boundary layer (int0 underflows to 0) once the effective selection
+        # gamma*nu is below about -3e6 with h < 1/2: a distinct failure class with its own key (known finding)
+        site = 'PhiManip.phi_1D[h<1/2, gamma*nu<-3e6]' if (h < 0.5 and gam * nu < -3e6) else 'PhiManip.phi_1D'
+        recs.append({'id': 'regime-%d' % next(nid), 'op': 'phi_regime', 'site': site,
                      'in': {'switch': 'domain extreme', 'points': [[rat(gam), rat(h), rat(nu)]]}, 'out': {'phis': [phi]}})
     return recs
 
